@@ -735,7 +735,7 @@ func rollupSwitchNodes(nodes []node) []node {
 		}
 		group.child = append(group.child, n)
 	}
-	if len(group.child) > 0 {
+	if group.typ != -1 {
 		r = append(r, group)
 	}
 	return r
